@@ -269,7 +269,8 @@ var targets = []target{
 		rets: map[string]string{"return errInvalidOperation": "RInvalid"},
 	}},
 	{"Listener", "Close", "l_close_skel", "FLClose", &dict{
-		stmts: map[string]string{"var once bool": "SCall PNop", "close(l.die)": "SCall PCloseLDie", "once = true": "SAssign VOnce ETrue"},
+		stmts: map[string]string{"var once bool": "SCall PNop", "close(l.die)": "SCall PCloseLDie", "once = true": "SAssign VOnce ETrue",
+			"l.closeBacklog()": "SCall PCloseBacklog"},
 		conds: map[string]string{"!once": "CNotOnce", "l.ownConn": "CData"},
 		rets: map[string]string{
 			"return errors.WithStack(io.ErrClosedPipe)": "RClosed",
